@@ -174,6 +174,16 @@ fn main() {
         sv::model::exec::CompileOutcome::Panicked(e) => println!("panicked: {:?}", e),
       }
     }
+    "c18text" => {
+      // dev: c18text <artifact.json> : print the driver program of a C18 artifact
+      let art: serde_json::Value = serde_json::from_str(&std::fs::read_to_string(&args[1]).unwrap()).unwrap();
+      let art = art.get("artifact").cloned().unwrap_or(art);
+      let text = sv::props::c18::build(art["ops"].as_array().unwrap()).0;
+      println!("{text}");
+      if let sv::model::exec::CompileOutcome::Rejected(m) = sv::model::exec::compile(&[(vec!["Driver".to_string()], text)], &["Driver".to_string()]) {
+        println!("REJECTED:\n{}", &m[..m.len().min(3000)]);
+      }
+    }
     "emitart" => {
       // dev: emitart <artifact.json> : print emitted TypeScript of an artifact
       let art: serde_json::Value = serde_json::from_str(&std::fs::read_to_string(&args[1]).unwrap()).unwrap();
